@@ -479,9 +479,78 @@ func (g *Gen) Next() Tx {
 			}
 		case 3:
 			aliasFields(msgs[0], r)
+		case 4, 5:
+			if dp := g.dependentPair(); dp != nil {
+				return Tx{Msgs: dp, Note: "two messages of one transaction, the second depending on the first"}
+			}
 		}
 	}
 	return Tx{Msgs: msgs}
+}
+
+// dependentPair: an administrative request followed, in the same transaction, by a request whose outcome depends on
+// it (all by the right holders; the model judges the pair sequentially).
+func (g *Gen) dependentPair() []sdk.Msg {
+	e, r, m := g.E, g.R, g.E.M
+	att := func(raw []byte, keys []*ref.Key) []byte { return ref.HonestAttestation(raw, keys, r.Intn(3)) }
+	switch r.Intn(8) {
+	case 0: // link a pair, then receive a burn message on it
+		d := Domains[r.Intn(len(Domains))]
+		tok := Token(r.Intn(NTokens))
+		if _, linked := m.Pairs[pairKey{d, string(tok)}]; linked || len(m.Messengers[d]) != 32 {
+			return nil
+		}
+		g.inNonce++
+		in := &InMsg{Version: 0, Src: d, Dst: 4, Nonce: g.inNonce, Sender: m.Messengers[d], Recipient: modulePadded, Caller: make([]byte, 32),
+			Body: BurnBody(0, tok, ref.Pad32(AcctBytes(r.Intn(NAccounts))), big.NewInt(int64(1+r.Intn(500))), g.rand32())}
+		raw := in.Bytes()
+		return []sdk.Msg{&ct.MsgLinkTokenPair{From: m.TC, RemoteDomain: d, RemoteToken: tok, LocalToken: "uusdc"}, &ct.MsgReceiveMessage{From: g.acct(), Message: raw, Attestation: e.Attest(raw, 0)}}
+	case 1: // enable an attester, then receive a message that needs its signature (threshold raised in between)
+		keys := e.EnabledPoolKeys()
+		x := freshAttester(m, r.Intn(8))
+		k := poolKeyBySpelling(x)
+		if k == nil || len(keys) == 0 {
+			return nil
+		}
+		g.inNonce++
+		in := &InMsg{Version: 0, Src: 1, Dst: 4, Nonce: g.inNonce, Sender: g.rand32(), Recipient: g.rand32(), Caller: make([]byte, 32), Body: []byte("dependent")}
+		raw := in.Bytes()
+		all := append(append([]*ref.Key{}, keys...), k)
+		return []sdk.Msg{&ct.MsgEnableAttester{From: m.AM, Attester: x}, &ct.MsgUpdateSignatureThreshold{From: m.AM, Amount: uint32(len(m.Attesters) + 1)},
+			&ct.MsgReceiveMessage{From: g.acct(), Message: raw, Attestation: att(raw, all)}}
+	case 2: // name a pending owner, accept, and act as the new owner
+		nw := g.acct()
+		return []sdk.Msg{&ct.MsgUpdateOwner{From: m.Owner, NewOwner: nw}, &ct.MsgAcceptOwner{From: nw}, &ct.MsgUpdatePauser{From: nw, NewPauser: g.acct()}}
+	case 3: // register a messenger, then deposit there
+		for _, d := range []uint32{21, 22, 23, 24, 25} {
+			if _, ok := m.Messengers[d]; !ok {
+				return []sdk.Msg{&ct.MsgAddRemoteTokenMessenger{From: m.Owner, DomainId: d, Address: Messenger(d, 1)},
+					&ct.MsgDepositForBurn{From: Acct(RichIx), Amount: mkInt(big.NewInt(3)), DestinationDomain: d, MintRecipient: g.rand32(), BurnToken: e.MintDenom()}}
+			}
+		}
+	case 4: // set a limit, then deposit exactly at it and just above it
+		lim := big.NewInt(int64(2 + r.Intn(40)))
+		return []sdk.Msg{&ct.MsgSetMaxBurnAmountPerMessage{From: m.TC, LocalToken: "uusdc", Amount: mkInt(lim)},
+			&ct.MsgDepositForBurn{From: Acct(RichIx), Amount: mkInt(new(big.Int).Add(lim, big.NewInt(int64(r.Intn(2))))), DestinationDomain: 0, MintRecipient: g.rand32(), BurnToken: e.MintDenom()}}
+	case 5: // pause / unpause, then send
+		var first sdk.Msg = &ct.MsgPauseSendingAndReceivingMessages{From: m.Pauser}
+		if m.PausedSR {
+			first = &ct.MsgUnpauseSendingAndReceivingMessages{From: m.Pauser}
+		}
+		return []sdk.Msg{first, &ct.MsgSendMessage{From: g.acct(), DestinationDomain: 0, Recipient: g.rand32(), MessageBody: []byte("after")}}
+	case 6: // shrink the max body size, then send a body that no longer fits / still fits
+		return []sdk.Msg{&ct.MsgUpdateMaxMessageBodySize{From: m.Owner, MessageSize: 10}, &ct.MsgSendMessage{From: g.acct(), DestinationDomain: 0, Recipient: g.rand32(), MessageBody: make([]byte, 10+r.Intn(2))}}
+	case 7: // disable an attester, then receive a message signed by it
+		keys := e.EnabledPoolKeys()
+		if len(keys) < 2 || int(m.Threshold) >= len(m.Attesters) || int(m.Threshold) > len(keys) || m.Threshold < 1 {
+			return nil
+		}
+		g.inNonce++
+		in := &InMsg{Version: 0, Src: 2, Dst: 4, Nonce: g.inNonce, Sender: g.rand32(), Recipient: g.rand32(), Caller: make([]byte, 32), Body: []byte("dependent")}
+		raw := in.Bytes()
+		return []sdk.Msg{&ct.MsgDisableAttester{From: m.AM, Attester: firstAttester(m)}, &ct.MsgReceiveMessage{From: g.acct(), Message: raw, Attestation: att(raw, keys[:m.Threshold])}}
+	}
+	return nil
 }
 
 func cloneMsg(m sdk.Msg) sdk.Msg {
